@@ -522,6 +522,63 @@ func runC06(c *Ctx) error {
 		}
 	}
 
+	// ---- a connected peer whose version-time height has been overtaken by the tip (startSync took its SyncCandidate flag when a
+	//      sync peer was (re)selected) is afterwards the ONLY one that announces new blocks: its announcements must be followed ----
+	{
+		n := 5
+		u := &History{Subs: linearSubs(2, genesisID, n+8, bitsW2, tsNew)}
+		for _, cps := range [][]cpSpec{{{1, 2}}, {{1, 2}, {n, n + 1}}} {
+			for _, cp := range []int{2000, 2} {
+				for _, kind := range []string{"i", "h"} {
+					if kind == "h" && cp != 2000 {
+						continue
+					}
+					// (a) both peers at height n; the sync peer announces e blocks (the other one's reported height falls behind the
+					//     tip), then goes away (closes / stalls until the stall rule drops it): re-selection finds no candidate;
+					//     the remaining peer catches up, gets m more blocks and announces them (at once / one by one)
+					for _, e := range []int{1, 3} {
+						for _, loss := range [][]string{{"X1", "R40"}, {"S1", "R20", "T0", "T1", "R40"}} {
+							for _, m := range []int{1, 3} {
+								first := &nodeSpec{P: 1, Cap: 2000, Chain: seqInts(2, n), Reserve: seqInts(n+2, e)}
+								second := &nodeSpec{P: 2, Cap: cp, Chain: seqInts(2, n), Reserve: seqInts(n+2, e+m+1)}
+								cmds := []string{"C1", "R40", "C2", "R20", fmt.Sprintf("A1.%d.%s", e, kind), "R40"}
+								cmds = append(cmds, loss...)
+								cmds = append(cmds, fmt.Sprintf("A2.%d.%s", e+m, kind), "R80")
+								sc := &Scenario{Eng: "d", Cps: cps, U: u, Nodes: []*nodeSpec{first, second}, Cmds: append([]string{}, cmds...)}
+								if err := g.do(sc, "demoted-announcer"); err != nil {
+									return err
+								}
+								// ... and one more block afterwards
+								sc = &Scenario{Eng: "d", Cps: cps, U: u, Nodes: []*nodeSpec{first, second}, Cmds: append(append([]string{}, cmds...), "A2.1."+kind, "R80")}
+								if err := g.do(sc, "demoted-announcer"); err != nil {
+									return err
+								}
+							}
+						}
+					}
+					// (b) the peer connects while it is behind the store and no sync peer is set (demoted at once), catches up and
+					//     announces beyond the tip
+					for _, k := range []int{2, 4} {
+						for _, j := range []int{1, k - 1} {
+							for _, m := range []int{1, 3} {
+								late := &nodeSpec{P: 2, Cap: cp, Chain: seqInts(2, j), Reserve: seqInts(j+2, k-j+m+1)}
+								cmds := []string{"C2", "R20", fmt.Sprintf("A2.%d.%s", k-j+m, kind), "R80"}
+								sc := &Scenario{Eng: "d", Cps: []cpSpec{{1, 2}}, U: u, Init: seqInts(2, k), Nodes: []*nodeSpec{late}, Cmds: cmds}
+								if err := g.do(sc, "demoted-announcer"); err != nil {
+									return err
+								}
+								sc = &Scenario{Eng: "d", Cps: []cpSpec{{1, 2}}, U: u, Init: seqInts(2, k), Nodes: []*nodeSpec{late}, Cmds: append(append([]string{}, cmds...), "A2.1."+kind, "R80")}
+								if err := g.do(sc, "demoted-announcer"); err != nil {
+									return err
+								}
+							}
+						}
+					}
+				}
+			}
+		}
+	}
+
 	// ---- random mixtures ----
 	nr := c.Pick(250, 2500)
 	for i := 0; i < nr; i++ {
